@@ -203,6 +203,19 @@ def compare(case, impl, model):
                 if sorted(map(key, tail)) != sorted(map(key, exp)):
                     disc.append(f"rank {r}: counter events differ from the series at unshifted timestamps: file has {len(tail)}, expected {len(exp)}; "
                                 f"first file {tail[:1]} first expected {exp[:1]}")
+                else:
+                    # a viewer shows, per track and instant, the LAST counter event in file order: it must carry the series' value after that instant
+                    def last_per_instant(evs):
+                        out = {}
+                        for e in evs:
+                            e = _canon(e)
+                            out[(e.get("pid"), e.get("name"), e.get("id"), e.get("ts"))] = json.dumps(e.get("args"), sort_keys=True)
+                        return out
+                    lf, le = last_per_instant(tail), last_per_instant(exp)
+                    bad = [(k, lf[k], le[k]) for k in le if lf.get(k) != le[k]][:2]
+                    if bad:
+                        disc.append(f"rank {r}: within a counter track the last event of an instant (file order) does not carry the series' value after that "
+                                    f"instant: (pid, name, id, ts), file, series: {bad}")
     return disc[:8]
 
 
